@@ -251,6 +251,12 @@ def field_instance(fmt, kind, n):
         else:
             line = tmpl % (a, b, wd)
         return [line], wd
+    if fmt in ("google", "numpy") and kind == "param" and n == 2:
+        # the second parameter's description has several blocks: introduction ending in '::', a literal block indented DEEPER than
+        # what follows, then a paragraph back at the description's own indentation
+        if fmt == "google":
+            return ["Args:", "    q: %sa intro::" % wd, "", "            %sb = literal" % wd, "", "        %sc after the block." % wd, ""], [wd + x for x in "abc"]
+        return ["Parameters", "----------", "q : int", "    %sa intro::" % wd, "", "            %sb = literal" % wd, "", "    %sc after the block." % wd, ""], [wd + x for x in "abc"]
     if fmt == "google":
         sec = {"param": ["Args:", "    p: %s text" % wd], "type": None, "return": ["Returns:", "    %s text" % wd], "rtype": None,
                "raises": ["Raises:", "    ValueError: %s text" % wd], "note": ["Note:", "    %s text" % wd], "see": ["See Also:", "    %s text" % wd]}[kind]
